@@ -24,6 +24,7 @@ type clipLineEv struct {
 	NT    int        `json:"nt"`
 	S     int        `json:"s"`
 	PSt   int        `json:"pstable"`
+	Dense int        `json:"dense"` // 1: the same line with every segment cut into hundreds of parts gave the same pieces
 }
 
 var c07Prev prevTracker
@@ -133,6 +134,21 @@ func c07Call(c *ctx, fn string, S int, box [4]int, paths [][][2]int, open int, r
 	}
 	e.Out = q
 	e.PSt = c07Prev.check(res)
+	e.Dense = 1
+	if fn == "LineString" && len(paths[0]) >= 2 && len(paths[0]) <= 13 && c.rng.Intn(8) == 0 {
+		// (only for figures whose own coordinates are exact in binary - whole and half units: on the grid of tenths a
+		// vertex "on" a slanted line is not on it in floating point, and whether the line touches a corner is not decided)
+		exact := true
+		for _, v := range box {
+			exact = exact && 2*v%S == 0
+		}
+		for _, v := range paths[0] {
+			exact = exact && 2*v[0]%S == 0 && 2*v[1]%S == 0
+		}
+		if exact {
+			e.Dense = c07Dense(c, s, box, paths[0], open, q)
+		}
+	}
 	if isNil {
 		e.Shape = "nil"
 	} else if shape != "" {
@@ -151,6 +167,76 @@ func c07Call(c *ctx, fn string, S int, box [4]int, paths [][][2]int, open int, r
 	}
 	c.emit(e)
 	return q
+}
+
+// c07Dense clips the same line once more with every segment cut into m equal parts (m = 128..1024, so that the
+// line has thousands of vertices and those of the original sit at indices that are multiples of m, optionally shifted
+// by a repeated first vertex). The lattice is refined by m, which makes the cut points lattice points; the vertices of
+// the original and the box keep their exact float values. The pieces must be those of the short line once repeated
+// vertices and vertices inside a straight run are taken out of both. Returns 0 on a difference.
+func c07Dense(c *ctx, s float64, box [4]int, path [][2]int, open int, q [][][2]int) int {
+	m := []int{128, 256, 512, 1024}[c.rng.Intn(4)]
+	sm := s * float64(m)
+	var dense [][2]int
+	for r := c.rng.Intn(3); r > 0; r-- {
+		dense = append(dense, [2]int{path[0][0] * m, path[0][1] * m})
+	}
+	for i := 0; i+1 < len(path); i++ {
+		a, b := path[i], path[i+1]
+		for t := 0; t < m; t++ {
+			dense = append(dense, [2]int{a[0]*m + (b[0]-a[0])*t, a[1]*m + (b[1]-a[1])*t})
+		}
+	}
+	last := path[len(path)-1]
+	dense = append(dense, [2]int{last[0] * m, last[1] * m})
+	b := toBound(box, s)
+	var res orb.MultiLineString
+	if site := guard(func() {
+		if open == 1 {
+			res = clip.LineString(b, toLS(dense, sm), clip.OpenBound(true))
+		} else {
+			res = clip.LineString(b, toLS(dense, sm))
+		}
+	}); site != "" {
+		return 0
+	}
+	qd, ok := quantMLS(res, sm)
+	if !ok {
+		return 1 // a crossing that is not a lattice point: not judged here
+	}
+	norm := func(ps [][][2]int, k int) [][][2]int {
+		out := [][][2]int{}
+		for _, piece := range ps {
+			np := [][2]int{}
+			for _, v := range piece {
+				w := [2]int{v[0] * k, v[1] * k}
+				if len(np) > 0 && np[len(np)-1] == w {
+					continue
+				}
+				for len(np) >= 2 {
+					u, v := np[len(np)-2], np[len(np)-1]
+					cross := (v[0]-u[0])*(w[1]-u[1]) - (v[1]-u[1])*(w[0]-u[0])
+					dot := (v[0]-u[0])*(w[0]-v[0]) + (v[1]-u[1])*(w[1]-v[1])
+					if cross != 0 || dot <= 0 {
+						break
+					}
+					np = np[:len(np)-1]
+				}
+				np = append(np, w)
+			}
+			// with the open option a piece that is a single point holds nothing that lies strictly inside: the
+			// library may or may not report it (a line that only touches a corner from outside)
+			if open == 1 && len(np) <= 1 {
+				continue
+			}
+			out = append(out, np)
+		}
+		return out
+	}
+	if !eqPaths(norm(qd, 1), norm(q, m)) {
+		return 0
+	}
+	return 1
 }
 
 func eqPaths(a, b [][][2]int) bool {
@@ -235,6 +321,9 @@ func init() {
 								for a := 0; a < GT*GT; a++ {
 									for b := 0; b < GT*GT; b++ {
 										out := c07Call(c, "LineString", ST, box, [][][2]int{{ptT(a), ptT(b)}}, open, 0)
+										if open == 0 && (a+2*b)%3 == 0 { // the generic entry point (it looks at the line's bound first)
+											c07Call(c, "Geometry", ST, box, [][][2]int{{ptT(a), ptT(b)}}, 0, 0)
+										}
 										if (a+b)%5 == 0 {
 											for _, piece := range out {
 												c07Call(c, "LineString", ST, box, [][][2]int{piece}, open, 1)
